@@ -1466,3 +1466,43 @@ STR_METHODS.update({'split': st_split1})
 for _n in ('rstrip', 'lstrip'):
     BYTES_METHODS.setdefault(_n, by_strip_like(_n))
     STR_METHODS.setdefault(_n, by_strip_like(_n))
+
+
+# sep.join(<elt> for x in <symbolic list>): an uninterpreted function of (sep, list), one per element expression.
+# Sound only when <elt> depends on nothing but x (checked: no other local is mentioned, no filter).  (added for C16)
+_by_join_plain = by_join
+
+
+def by_join_genexp(ex, s, recv, r, args, kw, node):
+    it = args[0] if args else None
+    if not (isinstance(it, VTag) and it.tag == 'genexp'):
+        return _by_join_plain(ex, s, recv, r, args, kw, node)
+    import ast
+    import hashlib
+    g = it.payload
+    try:
+        if f'g{gen_ordinal(ex, g)}' in ex.spec.loops:
+            # the sidecar gives an invariant for this generator: cut it like a loop (cut_gen via by_join; C17)
+            return _by_join_plain(ex, s, recv, r, args, kw, node)
+    except Unsupported:
+        pass
+    gen = g.generators[0]
+    if gen.ifs or not isinstance(gen.target, ast.Name):
+        raise Unsupported('join over a filtered / destructuring generator expression')
+    used = {n.id for n in ast.walk(g.elt) if isinstance(n, ast.Name)} - {gen.target.id}
+    if used & set(s.env):
+        raise Unsupported('join over a generator expression whose element depends on other locals')
+    rs = ex.ev(gen.iter, s)
+    if len(rs) != 1 or isinstance(rs[0][1], Raised) or rs[0][0] is not s:
+        raise Unsupported('join over a generator expression with an effectful iterable')
+    seqv = ex.deref(s, rs[0][1])
+    if not isinstance(seqv, VSeq):
+        raise Unsupported(f'join over a generator expression on {seqv!r}')
+    tag = hashlib.sha256(ast.dump(g.elt).encode()).hexdigest()[:8]
+    f = z3.Function(f'joinmap_{tag}_' + re.sub(r'\W+', '_', str(seqv.z.sort())), r.z.sort(), seqv.z.sort(), r.z.sort())
+    z = f(r.z, seqv.z)
+    return [(s, VBytes(z) if isinstance(r, VBytes) else VStr(z))]
+
+
+BYTES_METHODS['join'] = by_join_genexp
+STR_METHODS['join'] = by_join_genexp
